@@ -41,6 +41,7 @@ struct Inner {
     known_hits: BTreeMap<String, usize>,
     notes: Vec<String>,
     replay_counter: usize,
+    samples: Vec<Value>,
 }
 
 /// maximum number of distinct VIOLATION lines printed per run (further ones are counted only)
@@ -114,6 +115,14 @@ impl Ctx {
         self.inner.lock().unwrap().notes.push(s);
     }
 
+    /// record an actual case executed by this run (the first few are kept and written to coverage.samples)
+    pub fn sample(&self, v: Value) {
+        let mut g = self.inner.lock().unwrap();
+        if g.samples.len() < 6 {
+            g.samples.push(v);
+        }
+    }
+
     /// number of violations that are not covered by an open known finding
     pub fn new_violation_count(&self) -> usize {
         let g = self.inner.lock().unwrap();
@@ -172,6 +181,14 @@ impl Ctx {
         }
         let nviol = g.new_violations.len() + g.suppressed_new;
         if let Some(obj) = coverage.as_object_mut() {
+            // actual cases recorded during the run come first in coverage.samples
+            if !g.samples.is_empty() {
+                let mut all: Vec<Value> = g.samples.iter().map(|s| json!({"executed_case": s})).collect();
+                if let Some(Value::Array(old)) = obj.get("samples") {
+                    all.extend(old.iter().cloned());
+                }
+                obj.insert("samples".to_string(), Value::Array(all));
+            }
             obj.insert(
                 "known_findings_hit".to_string(),
                 json!(g.known_hits.iter().map(|(k, n)| json!({"key": k, "cases": n})).collect::<Vec<_>>()),
